@@ -16,6 +16,7 @@ from __future__ import annotations
 
 from ..core import Run, pmap, ToolError
 from ..gen import c19_fixed as g
+from ..gen import c19_seq as sq
 from ..ref import c19_fixed as ref
 
 LEVEL = "exploration"
@@ -227,11 +228,250 @@ def batches(ops):
 
 
 # ------------------------------------------------------------------------------------------------
+# operation sequences on a std.Variable / std.Signal (results are values, not aliases)
+# ------------------------------------------------------------------------------------------------
+
+def seq_op(kind, A, qual, seq):
+    return ("seq", kind, A, qual, seq)
+
+
+def seq_must_accept(seq):
+    # abs is not covered by the statement (and may legitimately be unavailable); everything else is
+    return not any(l[0] == "take" and l[1][0] == "abs" for l in seq)
+
+
+def seq_compare(kind, A, exp, obs):
+    """exp: ref.run_sequence result; obs: register -> describe() tuple.  -> None | text"""
+    fa = g.kfmt(kind, A)
+    for reg, got in obs.items():
+        if reg == "e":
+            want = exp["e"]
+            if want is ref.UNKNOWN:
+                continue
+            if got[0] != "bool":
+                return f"e: expected a boolean, got {got}"
+            if got[1] != want:
+                return f"e = (r == v): expected {want}, got {got[1]}"
+            continue
+        if reg == "v":
+            want, wf = exp["v"], fa
+        elif reg == "r":
+            want, wf = exp["r"]
+        else:
+            want, wf = exp["s"], None
+        if want is ref.UNKNOWN and got[0] == "undefined":
+            continue  # e.g. derived from a signal that was never assigned
+        if got[0] != "fixed":
+            return f"{reg}: expected a fixed point value, got {got}"
+        if got[1] != kind:
+            return f"{reg}: result kind {got[1]} differs from operand kind {kind}"
+        if wf is not None and tuple(got[1:4]) != tuple(wf):
+            return f"{reg}: format {got[1]}[{got[2]}:{got[3]}], expected {wf[0]}[{wf[1]}:{wf[2]}]"
+        if want is ref.UNKNOWN:
+            continue
+        have = ref.value(got[1:4], got[4])
+        if have != want:
+            return f"{reg} represents {have}, expected {want} (value snapshot semantics)"
+    return None
+
+
+def seq_py_outcome(kind, A, seq, a, b, prog=None):
+    """-> ("ok", {reg: outcome}) | ("exc", text)"""
+    try:
+        if prog is None:
+            prog, _ = sq.py_program(kind, A, seq)
+        out = prog(g.fixed_const(kind, A, a), g.fixed_const(kind, A, b))
+        return "ok", {k: g.describe(x) for k, x in out.items()}
+    except Exception as e:  # noqa
+        return "exc", f"{type(e).__name__}: {str(e)[:160]}"
+
+
+class SeqStat(OpStat):
+    __slots__ = ()
+
+    def export(self):
+        return {"op": self.op, "level": self.level, "evals": self.evals, "bad": self.bad, "exc": self.exc,
+                "first_bad": self.first_bad, "first_exc": self.first_exc, "distinct": len(self.outcomes),
+                "must_accept": seq_must_accept(self.op[4]), "note": self.note}
+
+    def record_seq(self, a, b, status, payload, exp=None):
+        self.evals += 1
+        if status == "exc":
+            self.exc += 1
+            if self.first_exc is None:
+                self.first_exc = (a, b, payload)
+            return
+        self.outcomes.add(tuple(sorted(payload.items())))
+        msg = seq_compare(self.op[1], self.op[2], exp, payload)
+        if msg is not None:
+            self.bad += 1
+            if self.first_bad is None:
+                self.first_bad = (a, b, msg)
+
+
+def run_seq_py(kind, A, seq):
+    st = SeqStat(seq_op(kind, A, "var", seq), "py")
+    fa = g.kfmt(kind, A)
+    w = g.width(A)
+    try:
+        prog, _ = sq.py_program(kind, A, seq)
+    except Exception as e:  # noqa
+        prog, err = None, f"{type(e).__name__}: {str(e)[:160]}"
+    for a in range(1 << w):
+        for b in range(1 << w):
+            if prog is None:
+                st.record_seq(a, b, "exc", err)
+                continue
+            status, out = seq_py_outcome(kind, A, seq, a, b, prog)
+            st.record_seq(a, b, status, out, ref.run_sequence(fa, seq, a, b) if status == "ok" else None)
+    return st
+
+
+def seq_shapes(kind, A, seq):
+    """register -> width of the raw bits (None: boolean) for the wrapper's output ports; the formats of s and of
+    r after `v + 0` are chosen by the implementation and taken from a Python level run"""
+    status, out = seq_py_outcome(kind, A, seq, 0, 0)
+    if status != "ok":
+        return None
+    sh = {}
+    for reg, o in out.items():
+        if o[0] == "bool":
+            sh[reg] = None
+        elif o[0] == "fixed":
+            sh[reg] = (o[1], o[2], o[3])
+        else:
+            return None
+    return sh
+
+
+def build_seq(kind, A, qual, seqs, shapes):
+    from ..cohdl_util import compile_source
+    from ..vhdl.elab import compile_design
+    from ..vhdl import rt
+
+    widths = [{reg: (None if f is None else f[1] - f[2] + 1) for reg, f in sh.items()} for sh in shapes]
+    src = sq.hw_source(kind, A, qual, seqs, widths)
+    res, _ = compile_source(src, entity="T")
+    if not res.ok:
+        return None, res.error, src
+    d = compile_design(res.vhdl)
+    if d.findings or d.multi_driven:
+        txt = "; ".join(f"{f.rule}: {f.msg}" for f in d.findings[:3]) or f"multiply driven: {d.multi_driven[:3]}"
+        return None, "emitted VHDL is not well formed: " + txt, src
+    try:
+        return d.sim(), None, src
+    except rt.SimError as e:
+        return None, f"SimError during initialisation: {e}", src
+
+
+def seq_read(sim, i, sh):
+    obs = {}
+    for reg, f in sh.items():
+        v = sim.get(f"o{i}_{reg}")
+        if v is None:
+            obs[reg] = ("undefined",)
+        elif f is None:
+            obs[reg] = ("bool", bool(v))
+        else:
+            obs[reg] = ("fixed", f[0], f[1], f[2], int(v))
+    return obs
+
+
+def simulate_seq(sim, kind, A, qual, seqs, shapes, stats):
+    """var: one clock per input pair.  sig: two clocks, (a0, b0) then (a, b); the second activation is checked,
+    it reads the value the first one left in the signal.  Packed inputs: a0 * 2**w + a."""
+    from ..vhdl import rt
+
+    fa = g.kfmt(kind, A)
+    w = g.width(A)
+    n = 1 << w
+    try:
+        sim.set("clk", 0)  # a rising edge needs a defined '0' first
+        if qual == "var":
+            for a in range(n):
+                for b in range(n):
+                    sim.set_many({"a": a, "b": b})
+                    sim.clock("clk")
+                    for i, seq in enumerate(seqs):
+                        stats[i].record_seq(a, b, "ok", seq_read(sim, i, shapes[i]), ref.run_sequence(fa, seq, a, b))
+        else:
+            for a0 in range(n):
+                for b0 in range(n):
+                    firsts = [ref.run_sequence(fa, seq, a0, b0, signal=True, v_before=ref.UNKNOWN) for seq in seqs]
+                    for a in range(n):
+                        for b in range(n):
+                            sim.set_many({"a": a0, "b": b0})
+                            sim.clock("clk")
+                            sim.set_many({"a": a, "b": b})
+                            sim.clock("clk")
+                            for i, seq in enumerate(seqs):
+                                exp = ref.run_sequence(fa, seq, a, b, signal=True, v_before=firsts[i]["v_next"])
+                                # the signal read back by the epilogue shows the value from before this activation
+                                stats[i].record_seq(a0 * n + a, b0 * n + b, "ok", seq_read(sim, i, shapes[i]), exp)
+    except rt.SimError as e:
+        return f"SimError: {e}"
+    return None
+
+
+def run_seq_hw(kind, A, qual, seqs):
+    stats = [SeqStat(seq_op(kind, A, qual, seq), "hw") for seq in seqs]
+    info = {"entities": 0, "rejected_entities": 0}
+    shapes = [seq_shapes(kind, A, seq) for seq in seqs]
+    todo = [i for i, sh in enumerate(shapes) if sh is not None]
+    for i, sh in enumerate(shapes):
+        if sh is None:
+            stats[i].note = "skipped: result format unknown (program rejected at the Python level)"
+
+    def attempt(idx):
+        sub = [seqs[i] for i in idx]
+        sub_shapes = [shapes[i] for i in idx]
+        sim, err, src = build_seq(kind, A, qual, sub, sub_shapes)
+        info["entities"] += 1
+        if sim is None:
+            info["rejected_entities"] += 1
+            return err
+        sub_stats = [SeqStat(seq_op(kind, A, qual, s_), "hw") for s_ in sub]
+        err = simulate_seq(sim, kind, A, qual, sub, sub_shapes, sub_stats)
+        if err is not None:
+            return err
+        for i, st in zip(idx, sub_stats):
+            stats[i] = st
+        return None
+
+    err = attempt(todo) if len(todo) > 1 else "single"
+    if err is not None:
+        for i in todo:
+            e = attempt([i])
+            if e is not None:
+                stats[i].record_seq(0, 0, "exc", e)
+    return stats, info
+
+
+def work_seq(task):
+    import time
+    cpu0 = time.process_time()
+    info = {"entities": 0, "rejected_entities": 0}
+    out = []
+    if task[0] == "seqpy":
+        _, kind, A, seqs = task
+        for seq in seqs:
+            out.append(run_seq_py(kind, A, seq).export())
+    else:
+        _, kind, A, qual, seqs = task
+        stats, info = run_seq_hw(kind, A, qual, seqs)
+        out.extend(st.export() for st in stats)
+    info["cpu_ms"] = int((time.process_time() - cpu0) * 1000)
+    return {"task": task[:3], "stats": out, "info": info}
+
+
+# ------------------------------------------------------------------------------------------------
 # worker
 # ------------------------------------------------------------------------------------------------
 
 def work(task):
     """task = ("pair", kind, A, B, full) | ("single", kind, A, maxn, full);  -> dict(stats=[...], info={...})"""
+    if task[0] in ("seqpy", "seqhw"):
+        return work_seq(task)
     import time
     cpu0 = time.process_time()
     full = task[4]
@@ -281,14 +521,56 @@ def bounds(run: Run):
     if dev:
         lo, hi, mw = (int(x) for x in dev.split(","))
         run.capped = True
-        return dict(lo=lo, hi=hi, maxw=mw, maxn=mw, hw_lo=lo, hw_hi=hi, hw_maxw=mw, hw_extra_mod=0)
+        return dict(lo=lo, hi=hi, maxw=mw, maxn=mw, hw_lo=lo, hw_hi=hi, hw_maxw=mw, hw_extra_mod=0, seq=SEQ_QUICK)
     if run.thorough:
-        return dict(lo=-4, hi=4, maxw=6, maxn=6, hw_lo=-4, hw_hi=4, hw_maxw=6, hw_extra_mod=0)
-    return dict(lo=-3, hi=3, maxw=5, maxn=5, hw_lo=-2, hw_hi=2, hw_maxw=5, hw_extra_mod=6)
+        return dict(lo=-4, hi=4, maxw=6, maxn=6, hw_lo=-4, hw_hi=4, hw_maxw=6, hw_extra_mod=0, seq=SEQ_THOROUGH)
+    return dict(lo=-3, hi=3, maxw=5, maxn=5, hw_lo=-2, hw_hi=2, hw_maxw=5, hw_extra_mod=6, seq=SEQ_QUICK)
+
+
+# operation sequences: (level, qualifier, format, depth of the per-take alphabets, depth of the mixed alphabet)
+SEQ_QUICK = (
+    ("py", "var", (1, -1), 3, 2),
+    ("py", "var", (0, -1), 3, 2),
+    ("hw", "var", (1, -1), 2, 0),
+)
+SEQ_THOROUGH = (
+    ("py", "var", (1, -1), 3, 3),
+    ("py", "var", (0, -1), 3, 3),
+    ("py", "var", (1, 0), 3, 2),
+    ("py", "var", (2, -1), 3, 2),
+    ("hw", "var", (1, -1), 3, 2),
+    ("hw", "var", (0, -1), 2, 0),
+    ("hw", "sig", (1, -1), 2, 0),
+)
+
+
+def seq_tasks(bd):
+    from ..core import chunked
+    tasks = []
+    n_prog = 0
+    for lvl, qual, A, depth, mixed in bd["seq"]:
+        fam = sq.program_family(A, depth, mixed)
+        for kind in g.KINDS:
+            n_prog += len(fam)
+            if lvl == "py":
+                tasks.extend(("seqpy", kind, A, chunk) for chunk in chunked(fam, 60))
+            else:
+                tasks.extend(("seqhw", kind, A, qual, chunk) for chunk in chunked(fam, 16))
+    return tasks, n_prog
+
+
+def op_key(op):
+    if op[0] == "seq":
+        return sq.prog_key(op[1], op[2], op[3], op[4])
+    return g.op_key(op)
+
+
+def to_op(x):
+    return ("seq", x[1], tuple(x[2]), x[3], sq.to_seq(x[4])) if x[0] == "seq" else g.to_op(x)
 
 
 def finding_key(level, op):
-    return f"{level}/{g.op_key(op)}"
+    return f"{level}/{op_key(op)}"
 
 
 def classify(s):
@@ -326,6 +608,9 @@ def main(run: Run):
     run.count("hw_pairs_seed_selected_extra", extra)
     # big tasks first for a better schedule
     tasks.sort(key=lambda t: -(g.width(t[2]) + (g.width(t[3]) if t[0] == "pair" else 3) + (4 if t[-1] is True else 0)))
+    stasks, n_prog = seq_tasks(bd)
+    tasks = stasks + tasks  # the sequence wrappers are the longest single tasks: schedule them first
+    run.count("sequence_programs", n_prog)
     run.count("formats", len(fmts) * 2)
     run.count("tasks", len(tasks))
     only = getattr(run, "only", None)
@@ -340,7 +625,7 @@ def main(run: Run):
         run.count("wrapper_entities_rejected", res["info"]["rejected_entities"])
         run.count("worker_cpu_ms", res["info"]["cpu_ms"])
         for s in res["stats"]:
-            op = g.to_op(s["op"])
+            op = to_op(s["op"])
             lvl = s["level"]
             if only and op[0] not in only and lvl not in only:
                 continue
@@ -358,9 +643,9 @@ def main(run: Run):
                 run.count("ops_with_distinct_outcomes")
             verdict, text = classify(s)
             run.count(f"ops_{verdict}")
-            if verdict == "ok" and s["distinct"] >= 2 and fam not in sampled and len(sampled) < 6:
+            if verdict == "ok" and s["distinct"] >= 2 and fam not in sampled and len(sampled) < 8:
                 sampled.add(fam)
-                run.sample({"level": lvl, "op": g.op_key(op), "inputs": s["evals"], "distinct_results": s["distinct"]})
+                run.sample({"level": lvl, "op": op_key(op), "inputs": s["evals"], "distinct_results": s["distinct"]})
             if verdict == "violation":
                 fb = s["first_bad"] or s["first_exc"]
                 key = finding_key(lvl, op)
@@ -373,7 +658,7 @@ def main(run: Run):
                     run.count("known_finding_instances")
                     if known_instances[pat] > 1:
                         continue
-                run.violation(key, f"{lvl} {g.op_key(op)}: {text}",
+                run.violation(key, f"{lvl} {op_key(op)}: {text}",
                               {"level": lvl, "op": list(op), "a": fb[0], "b": fb[1], "generator": "c19_fixed"})
     if known_instances:
         run.coverage_extra["known_finding_instances_by_entry"] = dict(sorted(known_instances.items()))
@@ -382,7 +667,7 @@ def main(run: Run):
     rej = run.counters.get("evaluations_rejected", 0)
     if not only:
         for lvl in ("py", "hw"):
-            for fam in ("arith", "resize", "eq", "ctor_f", "ctor_v", "ctor_c", "eqc"):
+            for fam in ("arith", "resize", "eq", "ctor_f", "ctor_v", "ctor_c", "eqc", "seq"):
                 if run.counters.get(f"evals_{lvl}_{fam}", 0) == 0:
                     run.tool_error(f"vacuous: no {lvl} level evaluation of {fam}")
         if ev == 0 or (ev - rej) * 2 < ev:
@@ -400,7 +685,10 @@ def main(run: Run):
               "every half-resolution dyadic float around the range; comparison with those constants; every raw "
               "operand value at the Python level; the same operations in compiled wrappers under vsim for every "
               f"format pair inside {bd['hw_lo']}..{bd['hw_hi']}, width<={bd['hw_maxw']}"
-              + (f" plus a seed-selected 1/{bd['hw_extra_mod']} of the remaining pairs" if bd["hw_extra_mod"] else "")),
+              + (f" plus a seed-selected 1/{bd['hw_extra_mod']} of the remaining pairs" if bd["hw_extra_mod"] else "")
+              + "; operation sequences (value-returning operations on a std.Variable/std.Signal that is re-assigned before "
+              "the results are used): all well-typed sequences up to the listed depth over {r=T(v), v:=b, v:=r, s=r+v, e=(r==v)} "
+              "per take operation T and over the mixed alphabet, all inputs: " + repr(bd["seq"])),
         evaluations=ev,
         distinct_nontrivial=run.counters.get("ops_with_distinct_outcomes", 0),
         bounds=bd,
@@ -413,9 +701,11 @@ def main(run: Run):
 
 def replay(run: Run, data):
     """re-execute one stored case: the operation `op` at `level` on the raw operands (a, b)"""
-    op = g.to_op(data["op"])
+    op = to_op(data["op"])
     a, b = data["a"], data["b"]
     lvl = data["level"]
+    if op[0] == "seq":
+        return replay_seq(op, lvl, a, b)
     if lvl == "py":
         status, out = g.py_run(op, a, b)
     else:
@@ -452,5 +742,31 @@ def replay(run: Run, data):
     msg = g.check_result(op, a, b, out)
     if msg is not None:
         print(f"reproduced: {lvl} {g.op_key(op)} a={a:#b} b={b:#b}: {msg}")
+        return False
+    return True
+
+
+def replay_seq(op, lvl, a, b):
+    _, kind, A, qual, seq = op
+    fa = g.kfmt(kind, A)
+    if lvl == "py":
+        st = SeqStat(op, "py")
+        status, out = seq_py_outcome(kind, A, seq, a, b)
+        st.record_seq(a, b, status, out, ref.run_sequence(fa, seq, a, b) if status == "ok" else None)
+    else:
+        # a fresh wrapper with this program alone, all inputs (cheap), report the stored input if it fails
+        stats, _ = run_seq_hw(kind, A, qual, [seq])
+        st = stats[0]
+        if st.note:
+            print("cannot rebuild the wrapper:", st.note)
+            return True
+    if st.exc:
+        if seq_must_accept(seq):
+            print(f"reproduced: {lvl} {op_key(op)} rejected: {st.first_exc[2]}")
+            return False
+        return True
+    if st.bad:
+        fa_, fb_, msg = st.first_bad
+        print(f"reproduced: {lvl} {op_key(op)} a={fa_:#b} b={fb_:#b}: {msg}")
         return False
     return True
